@@ -66,6 +66,9 @@ def setup():
     F.setup()
 
 
+QUERIES = ("find", "contains", "len")
+
+
 def gen_workload(tape):
     w = {}
     w["backend"] = tape.pick(["sim", "sim", "sim", "local", "zip"], "backend")
@@ -135,6 +138,11 @@ def gen_workload(tape):
         if a is not None and b is not None:
             w["exclude_periods"].append(sorted([a, b]))
     w["exclude_via"] = tape.pick(["ctor", "methods"], "exvia")
+    # two caller threads share the FileSet: consecutive queries run as two
+    # simulated tasks with line pre-emption inside typhon.files.fileset
+    w["two_callers"] = w["backend"] == "sim" and tape.flag("two_callers", 1, 6)
+    w["line_stride"] = 7 + tape.choice(40, "linestride") if w["two_callers"] else 0
+    w["store_stride"] = 1 + tape.choice(4, "storestride") if w["two_callers"] else 0
     return w
 
 
@@ -355,17 +363,67 @@ class Run:
         if len(set(starts)) < len(starts):
             self.probe("duplicate_start_times")
         self.probe("backend_" + w["backend"])
-        for i, o in enumerate(w["ops"]):
-            try:
-                self.op(i, o)
-            except AssertionError:
-                raise
-            except Exception as e:  # noqa: anything typhon raised outside the guarded calls
-                self.V.append(_viol(
-                    f"C01/{o['op']}/exception/{type(e).__name__}",
-                    f"operation {o['op']}: {type(e).__name__}: {e}"[:300]))
+        ops = w["ops"]
+        i = 0
+        while i < len(ops):
+            if w.get("two_callers") and i + 1 < len(ops) and \
+                    ops[i]["op"] in self.QUERIES and ops[i + 1]["op"] in self.QUERIES:
+                self.run_pair(i)
+                i += 2
+                continue
+            self.guarded_op(i, ops[i])
+            i += 1
         if getattr(self.be.fs, "permuted", 0):
             self.probe("listing_permuted")
+
+    QUERIES = QUERIES
+    PREFIX = "C01"
+
+    def guarded_op(self, i, o):
+        try:
+            self.op(i, o)
+        except AssertionError:
+            raise
+        except Exception as e:  # noqa: anything typhon raised outside the guarded calls
+            if type(e).__module__.startswith("sim."):
+                raise
+            self.V.append(_viol(
+                f"{self.PREFIX}/{o['op']}/exception/{type(e).__name__}",
+                f"operation {o['op']}: {type(e).__name__}: {e}"[:300]))
+
+    def run_pair(self, i):
+        """Two consecutive queries as two caller threads of one FileSet."""
+        from sim.kernel import Sim, Deadlock, StepCap
+        from sim.linepreempt import LinePreempt, periodic_points
+        w = self.w
+        ops = w["ops"]
+        sim = Sim(self.tape, {"kind": "random", "bias": 1 + self.tape.choice(4, "bias")},
+                  step_cap=6000)
+        sim.line_preempt = LinePreempt(
+            sim, [F._T["fsmod"]],
+            periodic_points(1 + w["line_stride"] % 5, w["line_stride"], 300),
+            only="caller", store_points=periodic_points(1, w["store_stride"], 300))
+        self.probe("two_caller_threads")
+
+        def caller(k):
+            sim.yield_(f"caller{k}")
+            self.guarded_op(i + k, ops[i + k])
+
+        def main():
+            a = sim.spawn("caller0", caller, 0)
+            b = sim.spawn("caller1", caller, 1)
+            sim.block_until(lambda: a.done and b.done, "join")
+            for t in (a, b):
+                if t.exc is not None:
+                    raise t.exc
+
+        try:
+            sim.run(main)
+        except (Deadlock, StepCap) as e:
+            self.V.append(_viol(f"{self.PREFIX}/two-callers/no-termination", str(e)[:200]))
+        if sim.line_preempt.fired:
+            self.probe("line_preemptions_in_callers")
+        self.answers.append(sim.digest())
 
     def op(self, i, o):
         kind = o["op"]
